@@ -164,13 +164,13 @@ impl AisParser {
         if self.fragment_number.checked_add(1) != Some(ais_sentence.fragment_number) {
             return Err("Fragment numbers out of sequence".into());
         }
-        self.fragment_number = ais_sentence.fragment_number;
         #[cfg(any(feature = "std", feature = "alloc"))]
         self.data.extend_from_slice(&ais_sentence.data);
         #[cfg(all(not(feature = "std"), not(feature = "alloc")))]
         self.data
             .extend_from_slice(&ais_sentence.data)
             .map_err(|_| Error::from("Vec is full on extend_from_slice"))?;
+        self.fragment_number = ais_sentence.fragment_number;
         Ok(())
     }
 
